@@ -225,7 +225,7 @@ def sl2c_to_so31(ctx):
     ctx.ensure_eq('form_scaled_by_abs_det_squared', MA.T @ J @ MA, absdet2 * J, tol=1e-6)
 
 
-@rcontract(P, "block_include", instances=[dict(n=2, m=3), dict(n=2, m=4), dict(n=2, m=2), dict(n=3, m=3), dict(n=1, m=2)], thorough=[dict(n=3, m=5), dict(n=4, m=4)],
+@rcontract(P, "block_include", instances=[dict(n=2, m=3), dict(n=2, m=4), dict(n=2, m=2), dict(n=3, m=3), dict(n=1, m=2)], thorough=[dict(n=3, m=5)],
            functions=["geometry_tools/lie/core.py:block_include"])
 def block_include(ctx, n, m):
     A, B = mats(ctx, 'A', n), mats(ctx, 'B', n)
@@ -455,5 +455,59 @@ def near_identity_and_unbalanced_scales(tier, rng, rep):
                         rep.fail("multiplicative", f"{mname}: hom(P)^(2^{K}) differs from hom(P^(2^{K})) by {np.max(np.abs(got - hQ))}", {**inp, "clause": f"power 2^{K}"}); return
             rep.attempt("lie_map_runs", inp, body)
             rep.case(key=(t, mname), nontrivial=True, sample=inp if (t, mname) == (0, "sl2c_to_so31") else None)
+            if len(rep.failures) >= 3:
+                return
+
+
+@bounded(P, "real_typed_factors_among_complex_ones", functions=["geometry_tools/lie/core.py:sl2c_to_so31", "geometry_tools/lie/core.py:sl2c_herm_action", "geometry_tools/lie/core.py:slc_to_slr",
+                                                                 "geometry_tools/lie/core.py:gln_adjoint", "geometry_tools/lie/core.py:sln_adjoint", "geometry_tools/lie/core.py:block_include"],
+         note="maps defined on complex matrices evaluated on factors stored with a REAL dtype (float64 / float32 / int64; determinant 1, -1, 2, 0.5 or random) next to genuinely complex "
+              "factors: the image of the real-typed matrix is the image of its complex copy, and products with complex factors go to products")
+def real_typed_factors_among_complex_ones(tier, rng, rep):
+    N = 120 if tier == 'thorough' else 30
+    maps = {"sl2c_to_so31": (lambda A: lie.sl2c_to_so31(A), 2), "slc_to_slr_2": (lambda A: lie.slc_to_slr(A), 2), "slc_to_slr_3": (lambda A: lie.slc_to_slr(A), 3),
+            "gln_adjoint": (lambda A: lie.gln_adjoint(A), 2), "sln_adjoint": (lambda A: lie.sln_adjoint(A), 2), "block_include": (lambda A: lie.block_include(A, A.shape[-1] + 1), 2)}
+    rep.rule = "A real-typed invertible (entries of moderate size, determinant prescribed or random), B complex invertible; maps: " + ", ".join(maps) + "; clauses f(A) = f(A as complex), f(A B) = f(A) f(B), f(B A) = f(B) f(A); stacks mixing real-valued and complex members"
+    rep.bound = f"{N} pairs x {len(maps)} maps"
+    for t in range(N):
+        for mname, (f, n) in maps.items():
+            A = rng.normal(size=(n, n)) + np.identity(n)
+            d = np.linalg.det(A)
+            target = [1.0, -1.0, 2.0, 0.5, None][t % 5]
+            if target is not None:
+                A[0] *= target / d
+            dt = [np.float64, np.float32, np.int64][t % 3]
+            if dt is np.int64:
+                A = np.rint(2 * A)
+                if abs(np.linalg.det(A)) < 0.5:
+                    A = A + 3 * np.identity(n)
+            A = A.astype(dt)
+            B = rng.normal(size=(n, n)) + 1j * rng.normal(size=(n, n)) + np.identity(n)
+            inp = {"map": mname, "A": np.asarray(A, dtype=float).tolist(), "A_dtype": np.dtype(dt).name, "B_re": B.real.tolist(), "B_im": B.imag.tolist()}
+
+            def body():
+                Ac = np.asarray(A, dtype=complex)
+                try:
+                    fA = np.asarray(f(A.copy()), dtype=complex)
+                except (TypeError, ValueError):
+                    rep.case(key=(t, mname, "refused"), nontrivial=False)
+                    return
+                fAc, fB = np.asarray(f(Ac.copy()), dtype=complex), np.asarray(f(B.copy()), dtype=complex)
+                tol = (1e-9 if dt is not np.float32 else 1e-4) * (1 + np.max(np.abs(fAc))) * (1 + np.max(np.abs(fB)))
+                if fA.shape != fAc.shape or not np.all(np.abs(fA - fAc) <= tol):
+                    rep.fail("image_independent_of_the_dtype", f"{mname}: the image of a {np.dtype(dt).name} matrix (det {np.linalg.det(np.asarray(A, dtype=float)):.3g}) differs from the image of its complex copy by {np.max(np.abs(fA - fAc)) if fA.shape == fAc.shape else 'shape'}", inp); return
+                for nm, (X, Y, fX, fY) in {"A_times_B": (Ac, B, fA, fB), "B_times_A": (B, Ac, fB, fA)}.items():
+                    got = np.asarray(f(X @ Y), dtype=complex)
+                    if not np.all(np.abs(got - fX @ fY) <= tol * (1 + np.max(np.abs(X)) * np.max(np.abs(Y)))):
+                        rep.fail("multiplicative", f"{mname}: f({nm}) != f(.) f(.) with a {np.dtype(dt).name} factor A (deviation {np.max(np.abs(got - fX @ fY))})", {**inp, "clause": nm}); return
+                st = np.stack([Ac, B, Ac @ B])
+                try:
+                    fs = np.asarray(f(st.copy()), dtype=complex)
+                except ValueError:
+                    return            # the maps built on linear_matrix_action refuse stacks loudly: listed finding (C17.arrays_of_matrices, gln_adjoint instance), not re-reported here
+                if fs.shape[0] != 3 or not np.all(np.abs(fs[0] - fAc) <= tol) or not np.all(np.abs(fs[1] - fB) <= tol):
+                    rep.fail("arrays_of_matrices_alike", f"{mname}: stack of a real-valued and a complex matrix", inp)
+            rep.attempt("lie_map_runs", inp, body)
+            rep.case(key=(t, mname), nontrivial=True, sample=inp if (t, mname) == (2, "sl2c_to_so31") else None)
             if len(rep.failures) >= 3:
                 return
